@@ -3,11 +3,13 @@
      PrecisionOpMultiConditional::computeRhs    /repo/src/LinearOp/PrecisionOpMultiConditional.cpp:55   A^T (y / sigma^2)
      PrecisionOpMultiConditional::_evalDirect   :243   (Q + A^T diag(1/sigma^2) A) x
      PrecisionOpMultiConditionalCs::_buildQpAtA /repo/src/LinearOp/PrecisionOpMultiConditionalCs.cpp:120
+     PrecisionOpMultiConditionalCs::_buildQmult / _buildAmult   :66 / :93   (block-diagonal Q, glued projections)
      SPDE::_computeKriging                      /repo/src/API/SPDE.cpp:342   solution of that system (Cholesky or conjugate gradient)
    The solve itself is not modelled as an algorithm: the model returns the exact solution with its certificate
    (lib/LinAlgQ.solve_checked), proved to be the only one.  No proofs here. *)
 From Coq Require Import List Arith ZArith QArith Bool.
 From Gst Require Import lib.QAux lib.LinAlgQ C15.Model C15.ModelOp.
+From Gst Require C16.Model.
 Import ListNotations.
 Local Open Scope Q_scope.
 
@@ -39,3 +41,24 @@ Definition krig_solve (n : nat) (Qm : mat) (rows : prows) (var y : list Q) : opt
   | Some W => Some (map (fun r => nth 0 r 0) W)
   | None => None
   end.
+
+(* block-diagonal precision of several structures (PrecisionOpMultiConditionalCs::_buildQmult) *)
+Fixpoint block_diag (blocks : list (nat * mat)) : fmat :=
+  match blocks with
+  | [] => fun _ _ => 0
+  | (n, Qm) :: r => fun i j =>
+      if Nat.ltb i n then (if Nat.ltb j n then get Qm i j else 0)
+      else (if Nat.ltb j n then 0 else block_diag r (i - n)%nat (j - n)%nat)
+  end.
+Fixpoint block_size (blocks : list (nat * mat)) : nat :=
+  match blocks with [] => O | (n, _) :: r => (n + block_size r)%nat end.
+Definition block_diag_mat (blocks : list (nat * mat)) : mat :=
+  mk (block_size blocks) (block_size blocks) (block_diag blocks).
+(* glued projection [A_1 | A_2 | ...] (_buildAmult): the columns of block k are shifted by the sizes of the previous blocks *)
+Fixpoint multi_rows (ndat : nat) (blocks : list (nat * prows)) (off : Z) : prows :=
+  match blocks with
+  | [] => repeat [] ndat
+  | (n, rows) :: r =>
+      C16.Model.map2 (fun a b => a ++ b) (map (map (fun e => ((fst e + off)%Z, snd e))) rows) (multi_rows ndat r (off + Z.of_nat n)%Z)
+  end.
+
